@@ -29,6 +29,31 @@ pub fn compact(depth: usize) -> Value {
         }
     }
     rec(&mut vec![], len, &alphabet, &mut seqs);
+    // a table that has a delete vector on a RowSet the compactor merged away is dropped: the next recoveries must work and
+    // leave the other table alone (the delete vector outlives its RowSet in the log until the table goes)
+    for (block, target) in [(64usize, 1usize << 20), (24, 1 << 20)] {
+        let sqls: Vec<String> = vec![
+            "create table keep(k int primary key, v int)".into(), "insert into keep values (1,1),(2,2)".into(),
+            "create table dd(k int primary key, v int)".into(), "insert into dd values (1,10),(2,20),(3,30)".into(), "insert into dd values (4,40),(5,50)".into(),
+            "delete from dd where k = 2".into(), "select k, v from dd".into(), "drop table dd".into(),
+            "select k, v from keep".into(), "select k, v from keep".into(), "insert into keep values (3,3)".into(), "select k, v from keep".into(),
+        ];
+        let (reopen, compact) = (vec![8usize, 9, 11], vec![6usize]);
+        tried += sqls.len() as u64;
+        let input = |idx: usize| json!({"engine": format!("disk engine without background tasks, target_block_size={block}, target_rowset_size={target}"),
+            "statements": &sqls[..=idx], "reopen_before_statement": reopen, "compaction_pass_before_statement": compact, "failing_statement": sqls.get(idx)});
+        let outs = match h::sql_session_manual(block, target, &sqls, &reopen, &compact) {
+            Ok(o) => o,
+            Err(err) => return json!({"found": true, "tried": tried, "input": input(sqls.len() - 1), "observed": format!("the session failed: {err}")}),
+        };
+        let rows = |v: &[(i64, i64)]| -> Vec<Vec<String>> { v.iter().map(|(k, x)| vec![k.to_string(), x.to_string()]).collect() };
+        for (idx, want) in [(6usize, rows(&[(1, 10), (3, 30), (4, 40), (5, 50)])), (8, rows(&[(1, 1), (2, 2)])), (9, rows(&[(1, 1), (2, 2)])), (11, rows(&[(1, 1), (2, 2), (3, 3)]))] {
+            match &outs[idx] {
+                Ok(got) => { let mut g = got.clone(); g.sort(); if g != want { return json!({"found": true, "tried": tried, "input": input(idx), "observed": format!("expected {want:?}; got {g:?}")}); } }
+                Err(err) => return json!({"found": true, "tried": tried, "input": input(idx), "observed": format!("statement failed: {err}")}),
+            }
+        }
+    }
     let want_sessions = match depth { 0 | 1 => 150, 2 => 1500, _ => usize::MAX };
     let stride = (seqs.len() / want_sessions).max(1);
     // target RowSet sizes: everything fits into one RowSet / only some of the table's RowSets fit together (a pass then merges
